@@ -269,14 +269,15 @@ def run_P(ck):
         functions_interpreted(ck, eng)
     # is_duplicable over enumerated type shapes (native evaluation of the real classmethod: finite, exhaustive to depth 3)
     from pytezos.michelson.types.base import MichelsonType
-    leaves = ['nat', 'string', {'prim': 'ticket', 'args': [{'prim': 'nat'}]}]
+    leaves = ['nat', 'string', {'prim': 'ticket', 'args': [{'prim': 'nat'}]}, {'prim': 'ticket', 'args': [{'prim': 'nat'}], 'annots': ['%tk']},
+              {'prim': 'ticket', 'args': [{'prim': 'string', 'annots': [':c']}], 'annots': [':ty']}]
     exprs = [{'prim': x} if isinstance(x, str) else x for x in leaves]
     for _ in range(2):
         new = []
-        for a in exprs[:6]:
+        for a in exprs[:8]:
             new += [{'prim': 'option', 'args': [a]}, {'prim': 'list', 'args': [a]}, {'prim': 'map', 'args': [{'prim': 'nat'}, a]},
                     {'prim': 'big_map', 'args': [{'prim': 'nat'}, a]}, {'prim': 'lambda', 'args': [a, {'prim': 'unit'}]}]
-            for b in exprs[:4]:
+            for b in exprs[:5]:
                 new += [{'prim': 'pair', 'args': [a, b]}, {'prim': 'or', 'args': [a, b]}]
         exprs += new
 
@@ -284,7 +285,10 @@ def run_P(ck):
         return x['prim'] == 'ticket' or (x['prim'] != 'lambda' and any(has_ticket(a) for a in x.get('args', [])))
     bad = []
     for x in exprs:
-        t = MichelsonType.match(x)
+        try:
+            t = MichelsonType.match(x)
+        except Exception:   # noqa  field annotations are only legal under pair/or: not a type
+            continue
         if t.is_duplicable() == has_ticket(x):
             bad.append(x)
     ck.obligation(f'is_duplicable::false_iff_type_contains_ticket[{len(exprs)} type shapes, depth<=3]', 'failed' if bad else 'discharged',
